@@ -686,6 +686,17 @@ func (tr *fnTrans) modTargets(m Clause, env *specEnv, out *[]modTarget) {
 			*out = append(*out, modTarget{heap: name, obj: slArr(b.S)})
 			return
 		}
+		if x.Fn == "obj" && len(x.Args) == 1 { // the whole object a pointer-valued expression refers to
+			b, err := tr.spec(x.Args[0], env)
+			if err != nil || b.T == nil || b.T.Name != "Int" || b.T.Elem == nil {
+				tr.errorf("%s: modifies %s: bad target (%v)", tr.key, m.Src, err)
+				return
+			}
+			name := "H_" + b.T.Elem.Tag()
+			tr.touchHeap(name, b.T.Elem, false)
+			*out = append(*out, modTarget{heap: name, obj: b.S})
+			return
+		}
 		tr.errorf("%s: modifies %s: unsupported", tr.key, m.Src)
 	case EIdent:
 		b, err := tr.spec(x, env)
